@@ -558,3 +558,7 @@ mod tests {
         assert_eq!(Some(9), reader.recognize_start_code(true).unwrap());
     }
 }
+
+#[cfg(any(kani, ruffle_rs_h263_rs_verif))]
+#[path = "/verif/hooks/h263/parser/reader.rs"]
+mod verif_hook;
